@@ -86,7 +86,7 @@ def numeration(ctx, R, total=False):
     R.saw(f)
     ws = [n for n in f.node.body if isinstance(n, ast.While)]
     if len(ws) != 1:
-        R.bad("C20.NUMERATION", f.qual + "|shape", where(f), "int2name is not a single digit loop: the numeration cannot be shown to be bijective base 26 (names must enumerate A..Z, AA.. in order without collisions)")
+        R.undecided("C20.NUMERATION", f.qual + "|shape", where(f), "int2name is not a single digit loop: the congruence analysis does not apply (names must enumerate A..Z, AA.. in order without collisions)")
         return
     w = ws[0]
     ipar = f.params[0]
@@ -156,7 +156,7 @@ def numeration(ctx, R, total=False):
             if total:
                 R.bad("C11.INT2NAME", f.qual + "|residue %d" % r, where(f, w), "the digit loop leaves the integers or the congruence domain (%s): chr() of a non-integer raises TypeError, an unbounded loop never returns" % e)
                 return
-            R.bad("C20.NUMERATION", f.qual + "|residue %d" % r, where(f, w), "the digit loop is outside the congruence domain (%s): it cannot be shown to be bijective base 26" % e)
+            R.undecided("C20.NUMERATION", f.qual + "|residue %d" % r, where(f, w), "the digit loop is outside the congruence domain (%s): it cannot be shown to be bijective base 26" % e)
             return
         nxt = env[dvar]
         want_m = (r - 1) % 26
